@@ -551,6 +551,23 @@ pub fn run_case(kind: BKind, c: &FCase) -> Result<FStat, String> {
                 FOp::Invalid(which, a) => {
                     let Some((ha, _)) = get(*a, &pool) else { continue };
                     st.invalid_calls += 1;
+                    // ZBDD make_node "takes ownership of hi and lo (but not var)": the references
+                    // handed over are not unref'ed by the harness, whichever operand is invalid;
+                    // a reference the callee fails to consume shows up in the balance checks
+                    if kind == BKind::Zbdd && n > 0 && which % 16 >= 10 {
+                        let sg = f!(singleton)(mgr, f!(level_to_var)(mgr, 0));
+                        let r = match which % 16 {
+                            10 | 13 => f!(make_node)(INVALID, f!(fref)(ha), f!(fref)(ha)),
+                            11 | 14 => f!(make_node)(sg, INVALID, f!(fref)(ha)),
+                            _ => f!(make_node)(sg, f!(fref)(ha), INVALID),
+                        };
+                        f!(unref)(sg);
+                        st.checks += 1;
+                        if !r.p.is_null() {
+                            return Err(format!("invalid-propagation: {what}: make_node with an invalid operand returned a valid handle"));
+                        }
+                        continue;
+                    }
                     let r = match which % 10 {
                         0 => f!(and)(INVALID, ha),
                         1 => f!(or)(ha, INVALID),
@@ -904,7 +921,7 @@ pub fn run(cfg: &Cfg) -> i32 {
         &total,
         Meta {
             level: "exploration",
-            rule: "proptest call sequences (10..70 calls) over the exported oxidd_{bdd,bcdd,zbdd}_* symbols of the freshly built liboxidd_ffi_c.so (loaded with dlopen, prototypes declared by hand): manager_new/ref/unref, add_vars, set_var_order, var/level maps, gc, constants, var/not_var, all connectives, ite, restrict, quantifiers and apply-quantify, substitution objects (new/add_pair/substitute twice/free), cofactors, ref/unref, node_count/level/var, satisfiable/valid, sat_count_double, pick_cube(+assignment_free)/pick_cube_dd/pick_cube_dd_set, eval, containing_manager, ZBDD singleton/base/empty/subset0/subset1/change/union/intsec/diff/make_node (which consumes hi and lo), and calls with the invalid handle at every operand position. Oracle: the harness keeps a ledger of the handles it owns with their truth tables (model = what the Rust API yields by C02-C04/C09): every returned handle must evaluate (oxidd_*_eval on all assignments) to the model table and have the reference node count; an invalid operand must give an invalid result; after every gc the manager must hold exactly the inner nodes of the shared reduced diagram of the owned tables (a leaked reference shows up as a surplus, an over-release as a deficit or crash); at the end every owned handle is unref'ed once and the manager must be back at its baseline. Each sequence runs in a forked child (a segfault/abort is a verdict). Non-trivial = sequence with a result whose operands stay owned, at least one invalid-handle call and at least one gc balance check.",
+            rule: "proptest call sequences (10..70 calls) over the exported oxidd_{bdd,bcdd,zbdd}_* symbols of the freshly built liboxidd_ffi_c.so (loaded with dlopen, prototypes declared by hand): manager_new/ref/unref, add_vars, set_var_order, var/level maps, gc, constants, var/not_var, all connectives, ite, restrict, quantifiers and apply-quantify, substitution objects (new/add_pair/substitute twice/free), cofactors, ref/unref, node_count/level/var, satisfiable/valid, sat_count_double, pick_cube(+assignment_free)/pick_cube_dd/pick_cube_dd_set, eval, containing_manager, ZBDD singleton/base/empty/subset0/subset1/change/union/intsec/diff/make_node (which consumes hi and lo - also when var, hi or lo is the invalid handle), and calls with the invalid handle at every operand position. Oracle: the harness keeps a ledger of the handles it owns with their truth tables (model = what the Rust API yields by C02-C04/C09): every returned handle must evaluate (oxidd_*_eval on all assignments) to the model table and have the reference node count; an invalid operand must give an invalid result; after every gc the manager must hold exactly the inner nodes of the shared reduced diagram of the owned tables (a leaked reference shows up as a surplus, an over-release as a deficit or crash); at the end every owned handle is unref'ed once and the manager must be back at its baseline. Each sequence runs in a forked child (a segfault/abort is a verdict). Non-trivial = sequence with a result whose operands stay owned, at least one invalid-handle call and at least one gc balance check.",
             assumptions: vec!["manager handle balance (strong count) is not observable through the public C API and is not checked".into(), "C++/Python layers are not built here (no CMake/pytest offline)".into(), "DDDMP/DOT export through the C API is not driven".into()],
             extra: json!({"library": lib_path()}),
         },
